@@ -10,7 +10,7 @@ pub fn spec() -> PropSpec {
     PropSpec {
         id: "C15",
         level: "exploration",
-        rule: "all programs of <=2 (quick) / <=3 (thorough) symbols over the 61 non-Push ops plus Push with 58 immediates (byte k = each effect opcode or 0x01, others 0; 0; -1), each against all 64 effect subsets; non-trivial = program contains at least one effect op or an immediate containing an effect opcode byte; distinct by bytecode",
+        rule: "all programs of <=2 (quick) / <=3 (thorough) symbols over the 61 non-Push ops plus Push with 58 immediates (byte k = each effect opcode or 0x01, others 0; 0; -1), each against all 64 effect subsets; plus all sequences of length 4..=7 (thorough 8; quick thins the longest length to every 3rd) over the six effect ops, Pop, Halt and Push 1 (analyze exact; byte scan against the six singleton subsets and the full set); non-trivial = program contains at least one effect op or an immediate containing an effect opcode byte; distinct by bytecode",
         assumptions: &["the op -> effect table is derived from the op names (KeyRange, KeyRangeExtern, PostKeyRange, PostKeyRangeExtern, ThisAddress, ThisContractAddress)"],
         run,
         replay,
@@ -136,6 +136,50 @@ fn run(cfg: &RunCfg, rep: &mut Report) {
         }
         rep.sample(|| json!({"program": crate::util::ops_json(&[a.clone(), alpha[(i * 7) % alpha.len()].0.clone()]), "effect_subsets": 64}));
     }
+    long_sequences(cfg, rep);
+}
+
+/// Long sequences over the six effect ops plus one neutral op: `analyze` must not lose an
+/// effect however many effectful ops precede it; the byte scan is checked against the six
+/// singleton subsets and the full set.
+fn long_sequences(cfg: &RunCfg, rep: &mut Report) {
+    let mut alpha: Vec<Op> = crate::refvm::all_ops().into_iter().filter(|o| !effect_of(o).is_empty()).collect();
+    alpha.push(Op::Stack(essential_asm::Stack::Pop));
+    alpha.push(Op::TotalControlFlow(essential_asm::TotalControlFlow::Halt));
+    alpha.push(Op::Stack(essential_asm::Stack::Push(1)));
+    let n = alpha.len();
+    let maxlen = cfg.tier.pick(7, 8);
+    let subsets: Vec<Effects> = (0..6).map(|i| Effects::from_bits_truncate(1 << i)).chain([Effects::all()]).collect();
+    for len in 4..=maxlen {
+        let total = (n as u64).pow(len as u32);
+        // quick tier: every 3rd sequence of the longest length
+        let stride = if len == maxlen && cfg.tier == Tier::Quick { 3 } else { 1 };
+        let mut k = 0u64;
+        while k < total {
+            if cfg.mine(k / 4096) {
+                let mut x = k;
+                let ops: Vec<Op> = (0..len).map(|_| { let o = alpha[(x % n as u64) as usize].clone(); x /= n as u64; o }).collect();
+                let mut want = Effects::empty();
+                for o in &ops {
+                    want |= effect_of(o);
+                }
+                let got = analyze(&ops);
+                let bytes: Vec<u8> = essential_asm::to_bytes(ops.iter().cloned()).collect();
+                let mut bad = got != want;
+                for s in &subsets {
+                    bad |= bytes_contains_any(&bytes, *s) != want.intersects(*s);
+                }
+                if bad {
+                    // full report through the common path (all 64 subsets)
+                    check_one(&ops, rep, true);
+                } else {
+                    rep.eval(Some(hash_of(&bytes)), got.bits() as u64);
+                }
+            }
+            k += stride;
+        }
+    }
+    rep.sample(|| json!({"long_sequence_alphabet": alpha.iter().map(|o| format!("{o:?}")).collect::<Vec<_>>(), "max_length": maxlen}));
 }
 
 fn replay(case: &Value) -> Result<bool, String> {
